@@ -17,7 +17,8 @@ from rules import inversion
 from sa import partial
 from sa.escape import Escape, enum_chain_exhaustive
 from sa.interproc import clone
-from sa.model import (AnalysisError, FuncInfo, Program, closure, src,
+from sa.model import (AnalysisError, FuncInfo, Program, ancestors, closure,
+                      src,
                       walk_local)
 from sa.peval import Const, Enum, Kind, PEval, show
 from sa.report import Check
@@ -336,6 +337,19 @@ def d5_inversion(chk: Check) -> None:
                          "the predicate over ({}, {}) is not XOR: an "
                          "inverted search would not be the complement of "
                          "the plain one".format(m, i))
+    # a result produced without consulting such a test is not inverted
+    fi = prog.func("Processor._get_nodes_by_search")
+    sites = inversion.match_sites(fi)
+    for y in walk_local(fi.node):
+        if isinstance(y, ast.Yield) and isinstance(y.value, ast.Call) and \
+                src(y.value.func) == "NodeCoords":
+            if any(a is s[0] for a in ancestors(y) for s in sites):
+                chk.ok("C12-D5", fi, y, "yield @{}".format(y.lineno),
+                       "governed by a match/inversion test", False)
+            else:
+                chk.fail("C12-D5", fi, y, "yield " + src(y.value)[:50],
+                         "a search result is yielded without consulting "
+                         "the (matched XOR inverted) test")
 
 
 def run(chk: Check) -> None:
